@@ -610,29 +610,43 @@ func (t *Terminfo) TPuts(w io.Writer, s string) {
 			return
 		}
 		val := s[:end]
-		s = s[end+1:]
 		padus := 0
 		unit := time.Millisecond
 		dot := false
-	loop:
-		for i := range val {
-			switch val[i] {
-			case '0', '1', '2', '3', '4', '5', '6', '7', '8', '9':
+		digits := 0 // digits seen in the current run
+		wellFormed := true
+		flags := false // inside the trailing '*' and '/' flags
+		star, slash := false, false
+		for i := 0; i < len(val) && wellFormed; i++ {
+			switch c := val[i]; {
+			case c >= '0' && c <= '9' && !flags:
 				padus *= 10
-				padus += int(val[i] - '0')
+				padus += int(c - '0')
+				digits++
 				if dot {
 					unit /= 10
 				}
-			case '.':
-				if !dot {
-					dot = true
-				} else {
-					break loop
-				}
+			case c == '.' && !dot && !flags && digits > 0:
+				dot = true
+				digits = 0
+			case c == '*' && !star && digits > 0:
+				flags, star = true, true
+			case c == '/' && !slash && digits > 0:
+				flags, slash = true, true
 			default:
-				break loop
+				wellFormed = false
 			}
 		}
+		if digits == 0 {
+			wellFormed = false
+		}
+		if !wellFormed {
+			// not a padding specification ($<n[.m][*][/]>): the "$<"
+			// is ordinary text
+			_, _ = io.WriteString(w, "$<")
+			continue
+		}
+		s = s[end+1:]
 
 		// Curses historically uses padding to achieve "fine grained"
 		// delays. We have much better clocks these days, and so we
